@@ -872,7 +872,11 @@ class Interp:
             st = self.eval(sl.step, fr)
             if isinstance(st, VInt) and z3.is_int_value(z3.simplify(st.t)) and z3.simplify(st.t).as_long() == -1 \
                     and lo is None and hi is None:
-                return VBuiltin('reversed_of')  # handled by pack_literals contract only
+                r = sym.rev_of(t.sort())(t)
+                self.st.assume(z3.Length(r) == z3.Length(t))
+                if isinstance(base, VSeq) or self.spec_mode:
+                    return VSeq(r, k, getattr(base, 'pytype', 'list'))
+                return self.st.new_list(r, k)
             raise Unsupported('slice step')
 
         def norm(v, default):
@@ -1706,6 +1710,13 @@ def _symbolic_range(I, vals):
     return r
 
 
+def _b_reversed(I, args, kwargs, fr):
+    t, k = I.seq_term(args[0])
+    r = sym.rev_of(t.sort())(t)
+    I.st.assume(z3.Length(r) == z3.Length(t))
+    return I.st.new_list(r, k)
+
+
 def _b_not_impl(name):
     def f(I, args, kwargs, fr):
         h = I.spec_funcs.get('builtin_' + name)
@@ -1757,7 +1768,7 @@ BUILTINS = {
     'len': _b_len, 'tuple': _b_tuple, 'list': _b_list, 'isinstance': _b_isinstance,
     'callable': _b_callable, 'max': _b_max, 'min': _b_min, 'type': _b_type, 'all': _b_all,
     'any': _b_any, 'range': _b_range, 'float': _b_float, 'int': _b_int, 'bool': _b_bool,
-    'deque': _b_deque, 'getattr': _b_getattr,
+    'deque': _b_deque, 'getattr': _b_getattr, 'reversed': _b_reversed,
     'next': _b_not_impl('next'), 'chain': _b_not_impl('chain'), 'sorted': _b_not_impl('sorted'),
     'set': _b_not_impl('set'), 'dict': _b_not_impl('dict'), 'enumerate': _b_not_impl('enumerate'),
     'time': _b_not_impl('time'), 'zip': _b_not_impl('zip'), 'sum': _b_not_impl('sum'),
